@@ -296,6 +296,7 @@ func runC20(r *Run) {
 			}
 		}
 		// ---- ending
+		foreignRead := false
 		readOnce := func(timeout time.Duration) error {
 			ctx, cancel := context.WithTimeout(bg, timeout)
 			defer cancel()
@@ -310,6 +311,13 @@ func runC20(r *Run) {
 			if p.abReader {
 				// the open message has to be finished by the same reader
 				return nil
+			}
+			if foreignRead {
+				// the application's context is of a type of its own: every context the
+				// library derives from it needs a goroutine of the context package, which
+				// has to be gone with the connection like the library's own
+				_, _, err := c.Read(&c20ForeignCtx{Context: ctx, done: make(chan struct{})})
+				return err
 			}
 			_, _, err := c.Read(ctx)
 			return err
@@ -352,8 +360,23 @@ func runC20(r *Run) {
 			cerr = c.Close(websocket.StatusNormalClosure, "done")
 		case 5, 6:
 			in := rc.Lib.In()
+			extra := 0
+			if !p.closeRead && !p.abReader && (idx+p.writes)%2 == 0 {
+				// the transport ends inside the payload of a control frame, and the read
+				// that meets it runs under a context of a foreign type
+				b := peer.Encode(wsref.Frame{Fin: true, Opcode: wsref.OpPing, Payload: []byte("12345")})
+				peer.Inject(b[:len(b)-3])
+				extra = len(b) - 3
+				foreignRead = true
+				// (one goroutine of the context package may exist while the control frame
+				// is being handled: allowed for in the checks of connections that run
+				// concurrently, and expected to be gone at this connection's own check)
+				mine++
+				openLib++
+				r.S.Count("probe.cut-inside-a-control-payload-under-a-foreign-context")
+			}
 			r.S.Lock()
-			in.CutAt = in.Delivered
+			in.CutAt = in.Delivered + int64(extra)
 			in.CutErr = io.EOF
 			if p.ending == 6 {
 				in.CutErr = simrt.ErrReset
